@@ -139,8 +139,15 @@ class SheetGen:
             return ("RGB", self.g(), r.randint(0, 255), self.g(), self.g(), r.randint(0, 255), self.g(), self.g(),
                     r.randint(0, 255), self.g())
         if k == "F":
-            more = [(r.random() < 0.5, self.g(), self.g(), self.term(depth - 1)) for _ in range(r.choice([0, 0, 1, 2, 3]))]
-            return ("F", Q(r.choice(FNAMES)), self.g(), self.term(depth - 1), more, self.g())
+            more = [(r.choice([0, 0, 1, 1, 2]), self.g(), self.g(), self.term(depth - 1)) for _ in range(r.choice([0, 0, 1, 2, 3]))]
+            first = self.term(depth - 1)
+
+            def plain(x):
+                return x[0] == "N" and x[1][0] == 0 and x[1][2] is None
+            if more and more[-1][0] == 2 and plain(more[-1][3]) and plain(more[-2][3] if len(more) > 1 else first):
+                # open finding C02-calc-trailing-integer-ratio: "<int> / <int>)" is one RATIO token
+                more[-1] = (1,) + more[-1][1:]
+            return ("F", Q(r.choice(FNAMES)), self.g(), first, more, self.g())
         if k == "CALC":
             ops = "*/" if self.in_margin else "+-*/"
             first = self.cterm()
@@ -749,11 +756,11 @@ def run(ctx):
 
     # ---- end-to-end stream with growing derivation depth
     if binary:
-        total = 40000 if thorough else 4000
+        total = 100000 if thorough else 4000
         batch = 2000 if thorough else 800
         done = 0
         while done < total:
-            depth = 0 if done < total // 6 else (1 if done < total // 2 else 2)
+            depth = 0 if done < total // 6 else (1 if done < total // 2 else (2 if done < 5 * total // 6 or not thorough else 3))
             cases = [gen_case(rng, depth) for _ in range(min(batch, total - done))]
             done += len(cases)
             for (c, m, i, v) in evaluate(ctx, binary, cases):
@@ -828,7 +835,7 @@ def run(ctx):
         **extra,
         "evaluations": n_eval,
         "distinct_nontrivial": len(nontrivial),
-        "rule": "derivations of grammar G (coq/theories/Grammar.v) generated with depth 0, 1, 2 (function/@media nesting), "
+        "rule": "derivations of grammar G (coq/theories/Grammar.v) generated with depth 0, 1, 2 (thorough: 3) (function/@media nesting), "
                 "each with a layout vector (all-zero 15%, 0/1 15%, 0..20 70%); each case = 4 parses (validate x parseComments) "
                 "compared with expected_model; non-trivial = distinct texts with >= 2 statements",
         "distribution": stats,
